@@ -164,9 +164,9 @@ func (r *Ref) tolerant(e *Expr) (interface{}, int) {
 	case stUnknown:
 		return nil, stOK
 	case stNested:
-		// the unknown name is not itself the condition / operand: either reading
-		r.Either = true
-		return nil, stOK
+		// C05: the unknown name is not itself the condition / operand, so this
+		// is the failure of a nested operation like any other
+		return nil, stFault
 	}
 	return nil, stFault
 }
